@@ -189,6 +189,8 @@ def mutable_default_facts(repo):
                             base = base.value
                         if isinstance(base, ast.Attribute):
                             written_attr.add(base.attr)      # x.attr.field = ...  /  x.attr[0].field = ...
+                        elif isinstance(base, ast.Name) and base.id != 'self':
+                            written_attr.add('$name:' + base.id)   # name.field = ...  (a write through a local name / parameter)
             if isinstance(n, ast.Call) and isinstance(n.func, ast.Attribute) and n.func.attr in (
                     'append', 'extend', 'insert', 'pop', 'remove', 'clear', 'sort', 'reverse', 'update', 'fill', 'add', 'setdefault', 'popitem'):
                 base = n.func.value
@@ -237,6 +239,12 @@ def mutable_default_facts(repo):
                                     b = b.value
                                 if isinstance(t, ast.Subscript) and isinstance(b, ast.Name) and b.id == a.arg:
                                     local_write = True
+                                if isinstance(t, ast.Attribute):
+                                    bb = t.value
+                                    while isinstance(bb, ast.Subscript):
+                                        bb = bb.value
+                                    if isinstance(bb, ast.Name) and bb.id == a.arg:
+                                        local_write = True          # parameter.field = ... on a shared default object
                     # positional forwarding to another call (e.g. super().__init__(point=y, functionValues=functionValues))
                     w = local_write or any(s in written_attr for s in stored)
                     rows.append('(%s, %s, %s)' % (cstr(qn), cstr(ast.unparse(d)[:40]), 'true' if w else 'false'))
